@@ -8,6 +8,7 @@ require (
 	github.com/ThreeDotsLabs/watermill v0.0.0
 	github.com/anishathalye/porcupine v1.3.0
 	github.com/pkg/errors v0.9.1
+	github.com/sony/gobreaker v1.0.0
 	golang.org/x/tools v0.29.0
 )
 
@@ -28,7 +29,6 @@ require (
 	github.com/prometheus/client_model v0.6.1 // indirect
 	github.com/prometheus/common v0.55.0 // indirect
 	github.com/prometheus/procfs v0.15.1 // indirect
-	github.com/sony/gobreaker v1.0.0 // indirect
 	golang.org/x/sys v0.29.0 // indirect
 	google.golang.org/protobuf v1.34.2 // indirect
 )
